@@ -437,6 +437,45 @@ fn c05_cands(rng: &mut Rng, pre: &Snap, _t: Tier) -> Vec<Cand> {
 }
 
 fn c05_enum(chk: &StepCheck, cx: &mut Ctx) {
+    // a layout change repeated 256 and 65536 times (revision counters of 8 / 16 bits wrap back to
+    // a value some cache was stamped with), then the movement candidates
+    for (i, (n, variant)) in [(256u32, 0u32), (65536, 0), (256, 1), (65536, 1), (65536, 2)].iter().enumerate() {
+        if !cx.mine(i as u64 + 7) || !cx.begin_group(&format!("repeat {} x variant {}", n, variant)) {
+            continue;
+        }
+        let (c, l) = (6u32, 8u32);
+        let mut setup: Vec<Op> = Vec::new();
+        match variant {
+            0 => {
+                // region + origin mode, an addressing call (fills whatever is cached), then CSI r n times
+                setup.push(Op::Api(Call::SetMargins(Some(3), Some(5))));
+                setup.push(Op::Api(Call::SetMode(vec![6], true)));
+                setup.push(Op::Api(Call::CursorPosition(Some(2), Some(4))));
+                for _ in 0..*n {
+                    setup.push(Op::Api(Call::SetMargins(None, None)));
+                }
+            }
+            1 => {
+                setup.push(Op::Api(Call::CursorPosition(Some(8), Some(3))));
+                for k in 0..*n {
+                    setup.push(Op::Api(Call::Resize(Some(if k % 2 == 0 { 5 } else { 8 }), None)));
+                }
+            }
+            _ => {
+                setup.push(Op::Api(Call::CursorPosition(Some(4), Some(3))));
+                for k in 0..*n {
+                    setup.push(Op::Api(if k % 2 == 0 { Call::SetMode(vec![6], true) } else { Call::ResetMode(vec![6], true) }));
+                }
+                setup.push(Op::Api(Call::SetMargins(Some(2), Some(6))));
+            }
+        }
+        if let Some((base, pre)) = reach(cx, c, l, &setup) {
+            let mut rng = Rng::new(*n as u64 + *variant as u64);
+            let cands = c05_cands_full(true, &mut rng, &pre);
+            fan_out(cx, chk.id, &chk.owns, c, l, &setup, &base, &pre, &cands);
+            cx.stats.exhaustive_parts.insert("movement candidates after 256 / 65536 repetitions of a layout change (CSI r, resize between two heights, DECOM set / reset)".into());
+        }
+    }
     if modes_sweep(chk, cx, 0.25) {
         cx.stats.exhaustive_parts.insert("every mode number 0..=130 and 40 numbers other terminals define, private and ANSI, set on a dense 5x3 screen: the check's candidates judged from three cursor positions".into());
     }
@@ -1124,6 +1163,20 @@ fn c12_cands(rng: &mut Rng, _pre: &Snap, _t: Tier) -> Vec<Cand> {
             }
         }
     }
+    // "erases the screen": nothing written while 132 wide may survive RM ?3 - not even out of
+    // sight beyond the restored width (a grow probe follows)
+    for _ in 0..3 {
+        let (pc, pl) = (_pre.columns, _pre.lines);
+        let mut ops: Vec<Op> = vec![Op::Api(SetMode(vec![3], true)), Op::Api(CursorPosition(Some(pl), Some(1)))];
+        for _ in 0..rng.below(3) {
+            ops.push(Op::Api(if rng.bool() { Index } else { InsertLines(Some(1)) }));
+        }
+        ops.push(Op::Api(CursorPosition(Some(rng.range(1, pl)), Some(rng.range(pc.min(131) + 1, 132)))));
+        ops.push(Op::Api(Draw("Q".into())));
+        ops.push(Op::Api(ResetMode(vec![3], true)));
+        ops.push(Op::Api(Resize(None, Some(rng.range(133, 140)))));
+        v.push(Cand { ops });
+    }
     // IRM governs insertion whatever the set in use makes of the characters (CP437 / VAX42 turn
     // zero-width control codes into glyphs) and however many characters one draw() call holds
     for _ in 0..3 {
@@ -1276,6 +1329,7 @@ pub static C12: StepCheck = StepCheck {
     required: &["step-judged", "margins", "DECOM"],
     owns: |c, _| match c {
         Call::Draw(_) | Call::Linefeed | Call::Index => Own::Full, // "IRM, LNM and DECAWM govern insertion, newline and autowrap"
+        Call::Resize(..) => Own::Only(&["cell"]), // grow probe: what DECCOLM erased must not come back
         _ => {
             if c.owner() == "C12" {
                 Own::Full
